@@ -73,3 +73,15 @@ spec fn can_test(which: int, ma: int, v: int) -> bool {
 spec fn exact_test(which: int, ma: int, mr: int) -> bool {
     has(mr, 1) == can_test(which, ma, 1) && has(mr, 2) == can_test(which, ma, 2) && has(mr, 4) == can_test(which, ma, 4)
 }
+/// a well-formed Int64 interval: endpoints Int64, NULL = unbounded, lower <= upper
+spec fn num_iv(i: Interval) -> bool {
+    i.lower is Int64 && i.upper is Int64
+    && ((int_of(i.lower) is Some && int_of(i.upper) is Some) ==> int_of(i.lower)->Some_0 <= int_of(i.upper)->Some_0)
+}
+spec fn contains(i: Interval, x: int) -> bool {
+    (int_of(i.lower) is Some ==> int_of(i.lower)->Some_0 <= x) && (int_of(i.upper) is Some ==> x <= int_of(i.upper)->Some_0)
+}
+/// truth value (4 = TRUE, 1 = FALSE) of a comparison outcome
+spec fn tvb(b: bool) -> int { if b { 4 } else { 1 } }
+/// both values lie in their intervals
+spec fn pair_in(x: Interval, y: Interval, a: int, b: int) -> bool { contains(x, a) && contains(y, b) }
